@@ -133,18 +133,20 @@ class Reject(Exception):
 def flat_sites(tree):
     """Flat-order walk (textual order ignoring loop counts).  Returns (n_subcircuits, site_index)
     where site_index maps id(measure-site node) -> flat subcircuit index; raises Reject."""
-    st = {"open": None, "closed": []}
+    st = {"open": None, "closed": [], "opener": None}
     site_index = {}
     token = [0]
 
-    def open_():
+    def open_(site):
         token[0] += 1
         st["open"] = token[0]
+        st["opener"] = id(site)
 
     def close(site):
         if st["open"] is None:
             raise Reject("measure-without-prepare")
         site_index[id(site)] = len(st["closed"])
+        site_index[("opener", len(st["closed"]))] = st["opener"]
         st["closed"].append(st["open"])
         st["open"] = None
 
@@ -152,13 +154,13 @@ def flat_sites(tree):
         tag = node[0]
         if tag == "g":
             if node[1] == PREP:
-                open_()
+                open_(node)
             elif node[1] == MEAS:
                 close(node)
             elif st["open"] is None:
                 raise Reject("gate-outside-subcircuit")
         elif tag == "sub":
-            open_()
+            open_(node)
             for k in node[2]:
                 rec(k)
             close(node)
@@ -207,30 +209,39 @@ def execute(tree, site_index, apply_gate=None, init=None):
     """Unrolled execution.  Returns list of (flat_subcircuit_index, state|None) per visit.
     apply_gate(state, name, vals) -> state ; init() -> fresh state."""
     visits = []
-    cur = {"state": None, "open": False}
+    cur = {"state": None, "open": False, "opener": None}
+
+    def measure(site):
+        # A visit of flat subcircuit i is a run from i's own prepare to i's measure.  A measure
+        # executed while nothing is open, or closing a run opened by ANOTHER subcircuit's
+        # prepare (both only possible when a prepare/measure sits in a zero-count loop), is
+        # recorded as "ambiguous": the properties do not say what such a run means.
+        idx = site_index[id(site)]
+        if not cur["open"] or cur["opener"] != site_index[("opener", idx)]:
+            visits.append((idx, "ambiguous"))
+        else:
+            visits.append((idx, cur["state"]))
+        cur["open"] = False
+        cur["state"] = None
 
     def rec(node):
         tag = node[0]
         if tag == "g":
             if node[1] == PREP:
                 cur["open"] = True
+                cur["opener"] = id(node)
                 cur["state"] = init() if init else None
             elif node[1] == MEAS:
-                # a measure executed while nothing is open (its prepare sits in a loop that ran
-                # zero times): recorded with state "unprepared"; the properties do not say what
-                # such a run means, checks treat it as outside their domain
-                visits.append((site_index[id(node)], cur["state"] if cur["open"] else "unprepared"))
-                cur["open"] = False
-                cur["state"] = None
+                measure(node)
             elif cur["open"] and apply_gate is not None:
                 cur["state"] = apply_gate(cur["state"], node[1], node[2])
         elif tag == "sub":
             cur["open"] = True
+            cur["opener"] = id(node)
             cur["state"] = init() if init else None
             for k in node[2]:
                 rec(k)
-            visits.append((site_index[id(node)], cur["state"]))
-            cur["open"] = False
+            measure(node)
         elif tag == "loop":
             for _ in range(node[1]):
                 rec(node[2])
